@@ -60,6 +60,59 @@ Definition show_analysis (r : option (list finding)) : string :=
   | Some fs => sev_name (verdict fs) ++ " " ++ sp (ssort_dup (map show_finding fs))
   end.
 
+(* canonical text of a JSON value: strings in hex, dict entries sorted *)
+Fixpoint show_json (j : json) : string :=
+  match j with
+  | JStr s => wire_of_string s
+  | JInt z => "i" ++ z_to_string z
+  | JList l => par ("L" :: map show_json l)
+  | JDict kvs => par ("D" :: ssort_dup (map (fun kv => par [wire_of_string (fst kv); show_json (snd kv)]) kvs))
+  | JOpaque w => par ["OPAQUE"; wire_of_string w]
+  end.
+
+Definition show_trigger (t : trigger) : string :=
+  match t with TNone => "NONE" | _ => show_json (json_of_trigger t) end.
+
+(* one finding with everything the report is made of *)
+Definition show_finding_full (f : finding) : string :=
+  par [f_analysis f; f_sev f;
+       match f_msg f with Some m => wire_of_string m | None => "NOMSG" end;
+       show_trigger (f_trig f)].
+
+Definition show_outcome (o : load_outcome) : string :=
+  match o with Loaded => "LOADED" | Unsafe info => "UNSAFE " ++ show_json info end.
+
+(* Interpreter.unused_assignments returns `defined - used`, a Python set: the order in which the
+   UnusedVariables findings come out is the set's iteration order (string hashes), which the harness
+   observes and passes in; everything else is in program order *)
+Definition is_unused_finding (f : finding) : bool := fst (f_site f) =? "UnusedVariables".
+Definition unused_var_of (f : finding) : string :=
+  match f_trig f with TTuple (BStr v :: _) => v | _ => "" end.
+Fixpoint take_while {A} (p : A -> bool) (l : list A) : list A :=
+  match l with [] => [] | x :: r => if p x then x :: take_while p r else [] end.
+Fixpoint drop_while {A} (p : A -> bool) (l : list A) : list A :=
+  match l with [] => [] | x :: r => if p x then drop_while p r else l end.
+Definition reorder_unused (order : list string) (fs : list finding) : list finding :=
+  let notu := fun f => negb (is_unused_finding f) in
+  let pre := take_while notu fs in
+  let rest := drop_while notu fs in
+  let us := take_while is_unused_finding rest in
+  let post := drop_while is_unused_finding rest in
+  let picked := flat_map (fun v => filter (fun f => unused_var_of f =? v) us) order in
+  let others := filter (fun f => negb (mem_str (unused_var_of f) order)) us in
+  pre ++ picked ++ others ++ post.
+
+(* verdict | findings | to_dict() | what check_safety writes to json_output_path | loader.load outcome *)
+Definition show_report (r : option (list finding)) : string :=
+  match r with
+  | None => "UNKNOWN-ANALYSIS"
+  | Some fs =>
+      sev_name (verdict fs) ++ " | " ++ sp (ssort_dup (map show_finding_full fs))
+        ++ " | " ++ show_json (to_dict default_verbosity fs)
+        ++ " | " ++ show_json (json_file fs)
+        ++ " | " ++ show_outcome (loader LIKELY_SAFE fs)
+  end.
+
 Definition handle_analysis (cmd : string) (args : list sexp) : option string :=
   if cmd =? "unparse" then
     match args with
@@ -84,6 +137,23 @@ Definition handle_analysis (cmd : string) (args : list sexp) : option string :=
                   | Err e => "ERR " ++ err_name e
                   end)
         | _, _, _, _ => Some "!bad-args"
+        end
+    | _ => None
+    end
+  else if cmd =? "report" then
+    match args with
+    | [SList l; protos; stds; reprs; order] =>
+        match ops_of_sexps l, protos_of_sexp protos, strs_of_sexp stds, reprs_of_sexp reprs, strs_of_sexp order with
+        | Some p, Some pr, Some sl, Some tbl, Some ord =>
+            Some (match run p with
+                  | Ok s => "OK " ++ show_report
+                              (match analyze (lookup_repr tbl) (fun m => mem_str m sl) pr s with
+                               | Some fs => Some (reorder_unused ord fs)
+                               | None => None
+                               end)
+                  | Err e => "ERR " ++ err_name e
+                  end)
+        | _, _, _, _, _ => Some "!bad-args"
         end
     | _ => None
     end
